@@ -131,6 +131,18 @@ def check_unit(case, rec):
     if o.status != "ok":
         return fails
 
+    # a second conversion of the same input must again be the mapping of the data as it was given
+    if o.ref_kind == "cells":
+        st_again, r_again = A.run_command(cmd, o.arrays, params)
+        rec.label("reused_input")
+        if st_again == "err":
+            fails.append(Failure("%s|reused_input:raises:%s" % (o.sig, A.exc_name(r_again)), str(r_again)[:200]))
+        else:
+            again = A.compare(r_again, o.ref, o.arrays[0].shape, o.sig + "|reused_input")
+            fails.extend(again)
+            if again:
+                return fails
+
     # variant == clamp(Normalize variant on [-1, +1])
     if cmd in VARIANT and o.ref_kind != "undefined":
         st2, r2 = A.run_command(VARIANT[cmd], o.arrays, to_normalize_params(cmd, params), fuzzy_inputs=False)
